@@ -102,3 +102,44 @@ Fixpoint shrink_run_bad (n : nat) (htsize tgt size count : N) : option (N * res)
   match n with O => None | S n' => match attempt_bad htsize tgt size count with Done t' r => Some (t', r) | Retry s' => shrink_run_bad n' htsize tgt s' count end end.
 Theorem retry_with_table_size_refuted : forall n, shrink_run_bad n 8 4 8 2 = None.
 Proof. induction n as [|n IH]; [reflexivity|]. cbn [shrink_run_bad]. exact IH. Qed.
+
+(* ---- the grow request: _uatomic_xchg_monotonic_increase(&resize_target, v), with other threads changing the target between attempts ----
+     old1 = load ; do { old2 = old1 ; if (old2 >= v) return old2 ; } while ((old1 = cmpxchg(ptr, old2, v)) != old2) ; return old2                      *)
+Inductive git := GDone (tgt' ret : N) | GRetry (old' : N).
+(* one round with expected value old (already known to be < v is checked first), tgt = the value of the word at the cmpxchg *)
+Definition grow_attempt (tgt old v : N) : git :=
+  if v <=? old then GDone tgt old                 (* nothing to raise *)
+  else if tgt =? old then GDone v old             (* exchanged *)
+  else GRetry tgt.                                (* old1 = the value the cmpxchg returned *)
+Fixpoint grow_run (obs : list N) (old v : N) : option (N * N * nat) :=
+  match obs with
+  | [] => None
+  | t :: rest => match grow_attempt t old v with
+                 | GDone t' r => Some (t', r, 1%nat)
+                 | GRetry o' => match grow_run rest o' v with Some (t', r, n) => Some (t', r, S n) | None => None end
+                 end
+  end.
+Lemma grow_retry_carries_observed tgt old v o' : grow_attempt tgt old v = GRetry o' -> o' = tgt /\ tgt <> old.
+Proof. unfold grow_attempt. destruct (v <=? old); [discriminate|]. destruct (N.eqb_spec tgt old) as [E|E]; [discriminate|]. intros H. inversion H. subst. split; [reflexivity|exact E]. Qed.
+Lemma grow_attempt_same tgt v : exists t' r, grow_attempt tgt tgt v = GDone t' r.
+Proof. unfold grow_attempt. destruct (v <=? tgt); [eauto|]. rewrite N.eqb_refl. eauto. Qed.
+(* lock-freedom of the grow request: two consecutive rounds that meet the same target end the loop *)
+Theorem grow_lock_free pre : forall t post old v, grow_run (pre ++ t :: t :: post) old v <> None.
+Proof.
+  induction pre as [|x pre IH]; intros t post old v; cbn [app grow_run].
+  - destruct (grow_attempt t old v) as [t' r|o'] eqn:E1; [discriminate|]. apply grow_retry_carries_observed in E1. destruct E1 as [-> _].
+    destruct (grow_attempt_same t v) as (t' & r & E). rewrite E. discriminate.
+  - destruct (grow_attempt x old v) as [t' r|o']; [discriminate|]. specialize (IH t post o' v).
+    destruct (grow_run (pre ++ t :: t :: post) o' v) as [[[t' r] n]|]; [discriminate|contradiction].
+Qed.
+(* what it does when alone (the word holds tgt throughout, first expected value = the loaded tgt): one round *)
+Theorem grow_solo tgt v : grow_run [tgt] tgt v = Some (N.max tgt v, tgt, 1%nat).
+Proof. cbn [grow_run]. unfold grow_attempt. destruct (N.leb_spec v tgt); [f_equal; f_equal; f_equal; lia|]. rewrite N.eqb_refl. f_equal. f_equal. f_equal. lia. Qed.
+(* the loop that keeps its first expected value (does not feed the cmpxchg's result back) spins for ever once another thread has changed the target: 2 loaded, the
+   word raised to 8 by somebody else, request for 4 - every cmpxchg expects 2 *)
+Definition grow_attempt_bad (tgt old v : N) : git := match grow_attempt tgt old v with GRetry _ => GRetry old | d => d end.
+Fixpoint grow_run_bad (n : nat) (tgt old v : N) : option (N * N) :=
+  match n with O => None | S n' => match grow_attempt_bad tgt old v with GDone t' r => Some (t', r) | GRetry o' => grow_run_bad n' tgt o' v end end.
+Theorem grow_stale_expected_refuted : forall n, grow_run_bad n 8 2 4 = None.
+Proof. induction n as [|n IH]; [reflexivity|]. cbn [grow_run_bad]. exact IH. Qed.
+Print Assumptions grow_lock_free.
